@@ -97,7 +97,7 @@ fn range_window_2x2_sel() {
     }
 }
 
-/// an empty source: every window is all default (FAILS on the real code: windows containing (0, 0) panic in chunks(0))
+/// an empty source: every window is all default (regression: windows containing (0, 0) used to panic in chunks(0))
 #[kani::proof]
 #[kani::unwind(7)]
 fn range_window_empty() {
@@ -251,7 +251,7 @@ fn range_index_oob_panics() {
     let _ = src[(i, j)];
 }
 
-/// Kb twin of the Verus obligation set_value/C05.set_wf (counterexample finder): after set_value the buffer holds
+/// Kb twin of the Verus obligations set_value/C05.set_* (regression: the row-growth arm used to append one row too many): after set_value the buffer holds
 /// exactly height x width cells, the written cell reads back, every other cell keeps its value / is default.
 /// Old shape h x w at origin (1, 2); every target position from the start corner to 2 beyond the end corner.
 fn check_set_value(h: u32, w: u32) {
@@ -286,3 +286,19 @@ fn check_set_value(h: u32, w: u32) {
 #[kani::proof]
 #[kani::unwind(8)]
 fn range_set_value_rect_1x2() { check_set_value(1, 2); }
+
+/// set_value on the empty range: the result is the single cell at the position
+#[kani::proof]
+#[kani::unwind(6)]
+fn range_set_value_on_empty() {
+    let v: usize = kani::any();
+    let ps: [(u32, u32); 4] = [(0, 0), (2, 0), (0, 3), (1, 2)];
+    let mut k = 0;
+    while k < 4 {
+        let mut r: Range<usize> = Range::empty();
+        r.set_value(ps[k], v);
+        assert!(r.start == ps[k] && r.end == ps[k] && r.inner.len() == 1);
+        assert!(r.get_value(ps[k]) == Some(&v) && r.get_size() == (1, 1));
+        k += 1;
+    }
+}
